@@ -234,31 +234,39 @@ theorem dictGet_setAttrDel_self (d : Dict) (k v : Val) (h : dictGet d k = pyNone
     · rename_i h1 h2; rw [h2] at h1; exact absurd h h1
     · exact dictGet_set_self d k v
 
+theorem dictGet_anchorAttrs_identifier (d : Dict) : dictGet (Anchor.attrsOf d) "identifier" = pyNone := by
+  simp [Anchor.attrsOf, dictGet_setAttr_ne]
+
+theorem dictGet_guidelineAttrs_identifier (d : Dict) : dictGet (Guideline.attrsOf d) "identifier" = pyNone := by
+  simp [Guideline.attrsOf, dictGet_setAttr_ne, dictGet_setAttrDel_ne]
+
 theorem anchor_ofDict (d : Dict) (r : Reg) :
     Anchor.ofDict d r = (Anchor.build d, r.add (dictGet d "identifier")) := by
-  simp [Anchor.ofDict, Anchor.build, setIdent, dictGet_setAttr_ne]
-  split <;> simp_all
+  simp only [Anchor.ofDict, Anchor.build, setIdentReg, dictGet_anchorAttrs_identifier]
+  by_cases h : dictGet d "identifier" = pyNone <;> simp [h]
 
 theorem guideline_ofDict (d : Dict) (r : Reg) :
     Guideline.ofDict d r = (Guideline.build d, r.add (dictGet d "identifier")) := by
-  simp [Guideline.ofDict, Guideline.build, setIdent, dictGet_setAttr_ne, dictGet_setAttrDel_ne]
-  split <;> simp_all
+  simp only [Guideline.ofDict, Guideline.build, setIdentReg, dictGet_guidelineAttrs_identifier]
+  by_cases h : dictGet d "identifier" = pyNone <;> simp [h]
 
 /-- the five attribute getters of the anchor built from `d` answer what `d.get` answers -/
 theorem anchor_build_attrs (d : Dict) : AttrEq anchorAttrs (Anchor.build d).items d := by
   intro k hk
   simp [anchorAttrs] at hk
-  rcases hk with rfl | rfl | rfl | rfl | rfl <;>
-    simp [Anchor.build, Anchor.ofDict, setIdent, dictGet_setAttr_ne] <;>
-    (split <;> simp_all [dictGet_setAttr_ne, dictGet_set_ne, dictGet_set_self])
+  simp only [Anchor.build, Anchor.itemsOf, setIdentItems, dictGet_anchorAttrs_identifier]
+  by_cases h : dictGet d "identifier" = pyNone <;>
+    rcases hk with rfl | rfl | rfl | rfl | rfl <;>
+    simp [h, Anchor.attrsOf, dictGet_setAttr_ne, dictGet_set_ne, dictGet_set_self]
 
 theorem guideline_build_attrs (d : Dict) : AttrEq guidelineAttrs (Guideline.build d).items d := by
   intro k hk
   simp [guidelineAttrs] at hk
-  rcases hk with rfl | rfl | rfl | rfl | rfl | rfl <;>
-    simp [Guideline.build, Guideline.ofDict, setIdent, dictGet_setAttr_ne, dictGet_setAttrDel_ne] <;>
-    (split <;> simp_all [dictGet_setAttr_ne, dictGet_setAttrDel_ne, dictGet_set_ne, dictGet_set_self,
-      dictGet_setAttrDel_self])
+  simp only [Guideline.build, Guideline.itemsOf, setIdentItems, dictGet_guidelineAttrs_identifier]
+  by_cases h : dictGet d "identifier" = pyNone <;>
+    rcases hk with rfl | rfl | rfl | rfl | rfl | rfl <;>
+    simp [h, Guideline.attrsOf, dictGet_setAttr_ne, dictGet_setAttrDel_ne, dictGet_set_ne, dictGet_set_self,
+      dictGet_setAttrDel_self]
 
 theorem buildDicts_aux (build : Dict → DictObj) (ds : List Dict) (acc : List DictObj) (r : Reg) :
     ds.foldl (fun (acc : List DictObj × Reg) d =>
@@ -531,6 +539,436 @@ theorem glyph_rebuild (g t : Glyph) (ht : t.Fresh) (hw : g.DictsWF) :
   cases hs : g.shallow with
   | none => exact glyph_rebuild_full g t ht hw hs
   | some l => exact glyph_rebuild_shallow g t ht hw l hs
+
+
+/-! ### the rebuilt glyph says what the original says -/
+
+attribute [local irreducible] Anchor.itemsOf Guideline.itemsOf copyImage dictUpdate
+
+theorem DictEq.refl (d : Dict) : DictEq d d := fun _ => rfl
+
+theorem AttrEq.trans {attrs : List String} {a b c : Dict} (h1 : AttrEq attrs a b) (h2 : AttrEq attrs b c) :
+    AttrEq attrs a c := fun k hk => (h1 k hk).trans (h2 k hk)
+
+theorem forall2_map_left {α β : Type} (R : β → α → Prop) (f : α → β) (l : List α) (h : ∀ a ∈ l, R (f a) a) :
+    ListRel R (l.map f) l := by
+  induction l with
+  | nil => exact ListRel.nil
+  | cons a l ih =>
+    exact ListRel.cons (h a (by simp)) (ih (fun b hb => h b (by simp [hb])))
+
+theorem image_rebuilt_attrs (d : Dict) (h : ImageWF d) :
+    AttrEq imageAttrs (copyImage (dictUpdate imageDefaults d) imageDefaults) d := by
+  intro k hk
+  rw [copyImage_attrs _ _ k hk]
+  exact dictGet_dictUpdate_of_contains _ _ _ h.1 (h.2 k hk)
+
+section proj
+variable (g t : Glyph)
+theorem rb_name : (Glyph.rebuiltFrom g t).name = g.name := rfl
+theorem rb_unicodes : (Glyph.rebuiltFrom g t).unicodes = g.unicodes := rfl
+theorem rb_width : (Glyph.rebuiltFrom g t).width = g.width := rfl
+theorem rb_height : (Glyph.rebuiltFrom g t).height = g.height := rfl
+theorem rb_note : (Glyph.rebuiltFrom g t).note = g.note := rfl
+theorem rb_lib : (Glyph.rebuiltFrom g t).lib = { items := g.lib.items, parent := true, observed := t.disp } := rfl
+theorem rb_tempLib : (Glyph.rebuiltFrom g t).tempLib = { items := g.tempLib.items, parent := true, observed := false } := rfl
+theorem rb_shallow : (Glyph.rebuiltFrom g t).shallow = g.shallow := rfl
+theorem rb_contours : (Glyph.rebuiltFrom g t).contours =
+    if g.shallow.isSome then [] else g.contours.map (Contour.rebuilt t.disp) := rfl
+theorem rb_components : (Glyph.rebuiltFrom g t).components = g.components.map (Component.rebuilt t.disp) := rfl
+theorem rb_guidelines : (Glyph.rebuiltFrom g t).guidelines =
+    g.guidelines.map (fun a => { Guideline.build a.items with observed := t.disp }) := rfl
+theorem rb_anchors : (Glyph.rebuiltFrom g t).anchors =
+    g.anchors.map (fun a => { Anchor.build a.items with observed := t.disp }) := rfl
+theorem rb_image : (Glyph.rebuiltFrom g t).image =
+    some { items := copyImage (dictUpdate imageDefaults g.imageObj.items) imageDefaults,
+           parent := true, observed := t.disp } := rfl
+theorem rb_reg : (Glyph.rebuiltFrom g t).reg = (Reg.ok []).addAll g.regIds := rfl
+theorem rb_disp : (Glyph.rebuiltFrom g t).disp = t.disp := rfl
+theorem rb_parent : (Glyph.rebuiltFrom g t).parent = t.parent := rfl
+theorem rb_observed : (Glyph.rebuiltFrom g t).observed = t.observed := rfl
+end proj
+
+theorem rebuiltFrom_obsEq (g t : Glyph) (hi : ImageWF g.imageObj.items) :
+    (Glyph.rebuiltFrom g t).ObsEq g := by
+  constructor
+  · exact rb_name g t
+  · exact rb_unicodes g t
+  · exact rb_width g t
+  · exact rb_height g t
+  · exact rb_note g t
+  · rw [rb_lib]; exact DictEq.refl _
+  · rw [rb_tempLib]; exact DictEq.refl _
+  · simp only [Glyph.imageObj, rb_image, Option.getD_some]
+    exact image_rebuilt_attrs _ hi
+  · simp only [Glyph.pens, rb_shallow, rb_contours]
+    cases hs : g.shallow with
+    | some l => rfl
+    | none => simp [Contour.rebuilt, Contour.toPen, Function.comp_def]
+  · rw [rb_shallow]
+  · rw [rb_components]; simp [Component.rebuilt, Component.data, Function.comp_def]
+  · rw [rb_anchors]
+    exact forall2_map_left (fun (a b : DictObj) => AttrEq anchorAttrs a.items b.items) _ g.anchors
+      (fun a _ => by
+        have := anchor_build_attrs a.items
+        exact this)
+  · rw [rb_guidelines]
+    exact forall2_map_left (fun (a b : DictObj) => AttrEq guidelineAttrs a.items b.items) _ g.guidelines
+      (fun a _ => by
+        have := guideline_build_attrs a.items
+        exact this)
+
+
+/-! registry -/
+
+theorem Reg.addAll_fail (e : String) (ids : List Val) : (Reg.fail e).addAll ids = .fail e := by
+  induction ids with
+  | nil => rfl
+  | cons i r ih => simpa [Reg.addAll_cons, Reg.add] using ih
+
+/-- registering identifiers that are pairwise distinct and not yet registered succeeds and appends them -/
+theorem Reg.addAll_ok (l ids : List Val) (h : (l ++ ids.filter (· ≠ pyNone)).Nodup) :
+    (Reg.ok l).addAll ids = .ok (l ++ ids.filter (· ≠ pyNone)) := by
+  induction ids generalizing l with
+  | nil => simp
+  | cons i r ih =>
+    rw [Reg.addAll_cons]
+    by_cases hi : i = pyNone
+    · subst hi
+      simp only [Reg.add_none]
+      have : (pyNone :: r).filter (· ≠ pyNone) = r.filter (· ≠ pyNone) := by simp
+      rw [this] at h ⊢
+      exact ih l h
+    · have hf : (i :: r).filter (· ≠ pyNone) = i :: r.filter (· ≠ pyNone) := by simp [hi]
+      rw [hf] at h ⊢
+      have hni : i ∉ l := by
+        rw [List.nodup_append] at h
+        intro hm
+        exact h.2.2 i hm i (by simp) rfl
+      have : (Reg.ok l).add i = .ok (l ++ [i]) := by simp [Reg.add, hi, hni]
+      rw [this, ih (l ++ [i]) (by simpa using h)]
+      simp
+
+/-- … and a repeated identifier makes the rebuild raise AssertionError -/
+theorem Reg.addAll_dup (l ids : List Val) (hl : l.Nodup) (h : ¬ (l ++ ids.filter (· ≠ pyNone)).Nodup) :
+    (Reg.ok l).addAll ids = .fail "AssertionError" := by
+  induction ids generalizing l with
+  | nil => simp at h; exact absurd hl h
+  | cons i r ih =>
+    rw [Reg.addAll_cons]
+    by_cases hi : i = pyNone
+    · subst hi
+      simp only [Reg.add_none]
+      have : (pyNone :: r).filter (· ≠ pyNone) = r.filter (· ≠ pyNone) := by simp
+      rw [this] at h
+      exact ih l hl h
+    · have hf : (i :: r).filter (· ≠ pyNone) = i :: r.filter (· ≠ pyNone) := by simp [hi]
+      rw [hf] at h
+      by_cases hm : i ∈ l
+      · simp [Reg.add, hi, hm, Reg.addAll_fail]
+      · have : (Reg.ok l).add i = .ok (l ++ [i]) := by simp [Reg.add, hi, hm]
+        rw [this]
+        apply ih
+        · rw [List.nodup_append]
+          exact ⟨hl, by simp, by intro a ha b hb; simp at hb; subst hb; intro e; subst e; exact hm ha⟩
+        · simpa using h
+
+/-! the full load of shallow contours -/
+
+theorem fullyLoad_fold (l : List PenRec) (g : Glyph) :
+    l.foldl (fun (g : Glyph) p =>
+      { g with
+        reg := g.reg.addAll p.ids
+        contours := g.contours ++ [{ ident := p.ident, points := p.points, parent := true, observed := g.disp }] }) g
+    = { g with reg := g.reg.addAll (l.flatMap PenRec.ids),
+               contours := g.contours ++ l.map (fun p => { ident := p.ident, points := p.points, parent := true,
+                                                            observed := g.disp }) } := by
+  induction l generalizing g with
+  | nil => simp
+  | cons p r ih =>
+    simp only [List.foldl_cons]
+    rw [ih]
+    simp [Reg.addAll_append]
+
+theorem fullyLoad_shallow (g : Glyph) (l : List PenRec) (h : g.shallow = some l) :
+    g.fullyLoad = { g with shallow := none, reg := g.reg.addAll (l.flatMap PenRec.ids),
+                           contours := g.contours ++ l.map (fun p => { ident := p.ident, points := p.points,
+                                                                        parent := true, observed := g.disp }) } := by
+  unfold Glyph.fullyLoad
+  rw [h]
+  simp only
+  rw [fullyLoad_fold]
+
+
+/-! ### Layer -/
+
+theorem newGlyph_fresh (disp : Bool) : (Layer.newGlyph disp).Fresh := ⟨rfl, rfl, rfl, rfl, rfl, rfl, rfl⟩
+
+theorem setGlyph_ser (ly : Layer) (n : Val) (g : Glyph) (hw : g.DictsWF) (hn : n ∉ AL.keys ly.glyphs) :
+    ly.setGlyph n (g.ser none none) =
+      { ly with glyphs := ly.glyphs ++ [Layer.rebuiltEntry ly.disp (n, g)],
+                err := orErr ly.err g.rebuildError } := by
+  unfold Layer.setGlyph
+  have : ({ parent := true, disp := ly.disp } : Glyph) = Layer.newGlyph ly.disp := rfl
+  rw [this, glyph_rebuild g _ (newGlyph_fresh _) hw]
+  simp only [AL_set_append_fresh _ _ _ hn]
+  rfl
+
+theorem setGlyph_fold (gs : List (Val × Glyph)) (ly : Layer) (hn : (AL.keys ly.glyphs ++ AL.keys gs).Nodup)
+    (hw : ∀ ng ∈ gs, ng.2.DictsWF) :
+    (gs.map (fun p => (p.1, p.2.ser none none))).foldl (fun (ly : Layer) p => ly.setGlyph p.1 p.2) ly =
+      { ly with glyphs := ly.glyphs ++ gs.map (Layer.rebuiltEntry ly.disp),
+                err := gs.foldl (fun e ng => orErr e ng.2.rebuildError) ly.err } := by
+  induction gs generalizing ly with
+  | nil => simp
+  | cons ng gs ih =>
+    obtain ⟨n, g⟩ := ng
+    simp only [List.map_cons, List.foldl_cons]
+    have hn1 : n ∉ AL.keys ly.glyphs := by
+      rw [List.nodup_append] at hn
+      intro hm
+      exact hn.2.2 n hm n (by simp [AL.keys]) rfl
+    rw [setGlyph_ser ly n g (hw (n, g) (by simp)) hn1, ih]
+    · simp
+    · simp only [AL.keys, List.map_append, List.map_cons, List.map_nil, Layer.rebuiltEntry]
+      rw [List.append_assoc]
+      simpa [AL.keys] using hn
+    · intro ng hng; exact hw ng (by simp [hng])
+
+
+theorem lf_lib (d : Dict) (ly : Layer) : Layer.setField "lib" (.dict d) ly = ly.setLib d := rfl
+theorem lf_tempLib (d : Dict) (ly : Layer) : Layer.setField "tempLib" (.dict d) ly = ly.setTempLib d := rfl
+theorem lf_color (v : Val) (ly : Layer) : Layer.setField "color" (.val v) ly = { ly with color := v } := rfl
+theorem lf_glyphs (l) (ly : Layer) : Layer.setField "glyphs" (.glyphs l) ly = ly.setGlyphs l := rfl
+
+/-- `setDataFromSerialization(ly.getDataForSerialization())` on a new layer, as one explicit record -/
+theorem layer_rebuild (ly t : Layer) (ht : t.Fresh) (hw : ly.WF) :
+    Layer.deser (ly.ser none none) t = Layer.rebuiltFrom ly t := by
+  unfold Layer.deser Layer.ser
+  obtain ⟨h1, h2⟩ := ht
+  simp only [applySetters, layerSetters, List.foldl_cons, List.foldl_nil]
+  simp only [setStep, get?_serializeWith, layerGetters, excluded_none]
+  simp only [↓reduceIte, List.mem_cons, String.reduceEq, or_false, or_true, and_true, List.mem_nil_iff,
+    Layer.getField]
+  rw [lf_lib, lf_tempLib, lf_color, lf_glyphs]
+  rw [dictObj_ser _ hw.lib, dictObj_ser _ hw.tempLib]
+  unfold Layer.setGlyphs
+  rw [setGlyph_fold _ _ (by simpa [Layer.setLib, Layer.setTempLib, h1, AL.keys] using hw.names) hw.glyphs]
+  cases t
+  simp only at h1 h2
+  subst h1 h2
+  simp [Layer.rebuiltFrom, Layer.setLib, Layer.setTempLib, dictUpdate_nil _ hw.lib, dictUpdate_nil _ hw.tempLib]
+
+
+/-! ### LayerSet -/
+
+theorem newLayer_fresh (disp : Bool) (n : Val) : (LayerSet.newLayer disp n).Fresh := ⟨rfl, rfl⟩
+
+theorem addLayer_ser (t : LayerSet) (n : Val) (ly : Layer) (D : Val) (hw : ly.WF) (hn : n ∉ AL.keys t.layers) :
+    t.addLayer (n, ly.ser none none, decide (n = D)) =
+      { t with layers := t.layers ++ [LayerSet.rebuiltEntry t.disp (n, ly)],
+               default := if n = D then n else t.default,
+               err := orErr t.err (LayerSet.rebuiltEntry t.disp (n, ly)).2.err } := by
+  unfold LayerSet.addLayer
+  have hc : AL.contains t.layers n = false := by
+    rw [AL.contains_false_iff]; exact AL.get?_eq_none_of_not_mem hn
+  simp only [hc, Bool.false_eq_true, ↓reduceIte]
+  have : ({ name := n, parent := true, observed := t.disp, disp := t.disp } : Layer) = LayerSet.newLayer t.disp n := rfl
+  rw [this, layer_rebuild ly _ (newLayer_fresh _ _) hw]
+  simp [LayerSet.rebuiltEntry]
+
+theorem addLayer_fold (ls0 : List (Val × Layer)) (D : Val) (t : LayerSet)
+    (hn : (AL.keys t.layers ++ AL.keys ls0).Nodup) (hw : ∀ nl ∈ ls0, nl.2.WF) :
+    (ls0.map (fun p => (p.1, p.2.ser none none, decide (p.1 = D)))).foldl LayerSet.addLayer t =
+      { t with layers := t.layers ++ ls0.map (LayerSet.rebuiltEntry t.disp),
+               default := ls0.foldl (fun d p => if p.1 = D then p.1 else d) t.default,
+               err := ls0.foldl (fun e nl => orErr e (LayerSet.rebuiltEntry t.disp nl).2.err) t.err } := by
+  induction ls0 generalizing t with
+  | nil => simp
+  | cons nl r ih =>
+    obtain ⟨n, ly⟩ := nl
+    simp only [List.map_cons, List.foldl_cons]
+    have hn1 : n ∉ AL.keys t.layers := by
+      rw [List.nodup_append] at hn
+      intro hm
+      exact hn.2.2 n hm n (by simp [AL.keys]) rfl
+    rw [addLayer_ser t n ly D (hw (n, ly) (by simp)) hn1, ih]
+    · simp
+    · simp only [AL.keys, List.map_append, List.map_cons, List.map_nil, LayerSet.rebuiltEntry]
+      rw [List.append_assoc]
+      simpa [AL.keys] using hn
+    · intro x hx; exact hw x (by simp [hx])
+
+theorem default_fold (names : List (Val × Layer)) (D d0 : Val) :
+    names.foldl (fun d p => if p.1 = D then p.1 else d) d0 = if D ∈ AL.keys names then D else d0 := by
+  induction names generalizing d0 with
+  | nil => simp [AL.keys]
+  | cons p r ih =>
+    simp only [List.foldl_cons]
+    rw [ih]
+    by_cases h : p.1 = D
+    · simp only [h, AL.keys, ↓reduceIte, List.map_cons, List.mem_cons, true_or]
+      split <;> rfl
+    · have : ¬ D = p.1 := fun e => h e.symm
+      simp only [h, AL.keys, ↓reduceIte, List.map_cons, List.mem_cons, this, false_or]
+
+/-- `setDataFromSerialization(ls.getDataForSerialization())` on a new layer set, as one explicit record -/
+theorem layerSet_rebuild (ls t : LayerSet) (ht : t.Fresh) (hw : ls.WF) :
+    LayerSet.deser (ls.ser none none) t = LayerSet.rebuiltFrom ls t := by
+  unfold LayerSet.deser LayerSet.ser
+  obtain ⟨h1, h2, h3⟩ := ht
+  simp only [get?_serializeWith, layerSetGetters, excluded_none, List.mem_cons, List.mem_nil_iff, or_false,
+    and_true, ↓reduceIte, LayerSet.getField]
+  rw [addLayer_fold _ _ _ (by simpa [h1, AL.keys] using hw.names) hw.layers, default_fold]
+  cases t
+  simp only at h1 h2 h3
+  subst h1 h2 h3
+  simp [LayerSet.rebuiltFrom]
+
+
+/-! ### Font -/
+
+section ff
+variable (f : Font)
+theorem ff_fmt (v : Val) : Font.setField "_ufoFormatVersion" (.val v) f = { f with fmt := v } := rfl
+theorem ff_maps (v : Val) : Font.setField "_kerningGroupConversionRenameMaps" (.val v) f = { f with maps := v } := rfl
+theorem ff_data (d : Dict) : Font.setField "data" (.dict d) f = { f with data := newFileSet d } := rfl
+theorem ff_features (d : Dict) : Font.setField "features" (.dict d) f =
+    { f with features := Features.deser d { f.features with parent := true, observed := true } } := rfl
+theorem ff_groups (d : Dict) : Font.setField "groups" (.dict d) f = { f with groups := updateWired f.groups d } := rfl
+theorem ff_images (d : Dict) : Font.setField "images" (.dict d) f = { f with images := newFileSet d } := rfl
+theorem ff_info (d : Dict) : Font.setField "info" (.dict d) f = { f with info := Info.deser d (wired f.info) } := rfl
+theorem ff_kerning (d : Dict) : Font.setField "kerning" (.dict d) f = { f with kerning := updateWired f.kerning d } := rfl
+theorem ff_layers (d) : Font.setField "layers" (.layers d) f = { f with layers := newLayerSet d } := rfl
+theorem ff_lib (d : Dict) : Font.setField "lib" (.dict d) f = { f with lib := updateWired f.lib d } := rfl
+theorem ff_tempLib (d : Dict) : Font.setField "tempLib" (.dict d) f =
+    { f with tempLib := ({ f.tempLib with parent := true }).deser d } := rfl
+theorem ff_guidelines (l) : Font.setField "guidelines" (.dicts l) f = f.setGuidelines l := rfl
+end ff
+
+theorem newFileSet_ser (o : DictObj) (h : DictWF o.items) :
+    newFileSet (o.ser none none) = { items := o.items, parent := true, observed := true } := by
+  unfold newFileSet
+  rw [dictObj_ser o h]
+  have := fileSet_deser_items o.items { parent := true, observed := true } h
+  simp only [FileSet.deser] at this ⊢
+  rw [this]
+
+theorem updateWired_ser (t o : DictObj) (h : DictWF o.items) :
+    updateWired t (o.ser none none) = { items := o.items, parent := true, observed := true } := by
+  unfold updateWired
+  rw [dictObj_ser o h]
+  simp [DictObj.deser, wired, dictUpdate_nil _ h]
+
+theorem features_rebuild (f t : Features) :
+    Features.deser (f.ser none none) t = { t with text := f.text } := by
+  simp [Features.deser, Features.ser, get?_serializeWith, featuresGetters, excluded_none, Features.getField]
+
+theorem newLayerSet_ser (ls : LayerSet) (hw : ls.WF) :
+    newLayerSet (ls.ser none none) = LayerSet.rebuiltFrom ls { parent := true, observed := true, disp := true } := by
+  unfold newLayerSet
+  exact layerSet_rebuild ls _ ⟨rfl, rfl, rfl⟩ hw
+
+theorem font_setGuidelines (f : Font) (ds : List DictObj) (h1 : f.guidelines = []) :
+    f.setGuidelines (ds.map (·.items)) =
+      { f with reg := f.reg.addAll (ds.map dictIdent),
+               guidelines := ds.map (fun a => { Guideline.build a.items with observed := true }) } := by
+  unfold Font.setGuidelines
+  simp only [buildDicts_eq _ _ guideline_ofDict, h1, List.reverse_nil, List.foldl_nil, List.map_map, Function.comp_def]
+  rfl
+
+/-- `setDataFromSerialization(f.getDataForSerialization())` on a new font, as one explicit record -/
+theorem font_rebuild (f t : Font) (ht : t.Fresh) (hw : f.WF) :
+    Font.deser (f.ser none none) t = Font.rebuiltFrom f t := by
+  unfold Font.deser Font.ser
+  obtain ⟨h1, h2, h3⟩ := ht
+  simp only [applySetters, fontSetters, List.foldl_cons, List.foldl_nil]
+  simp only [setStep, get?_serializeWith, fontGetters, excluded_none]
+  simp only [↓reduceIte, List.mem_cons, String.reduceEq, or_false, or_true, and_true, List.mem_nil_iff,
+    Font.getField]
+  cases t
+  simp only at h1 h2 h3
+  subst h1 h2
+  simp only [ff_fmt, ff_maps, ff_data, ff_features, ff_groups, ff_images, ff_info, ff_kerning, ff_layers, ff_lib,
+    ff_tempLib, ff_guidelines, map_ser_dicts _ hw.guidelines, font_setGuidelines,
+    newFileSet_ser _ hw.data, newFileSet_ser _ hw.images, features_rebuild, newLayerSet_ser _ hw.layers,
+    updateWired_ser _ _ hw.groups, updateWired_ser _ _ hw.kerning, updateWired_ser _ _ hw.lib,
+    dictObj_ser _ hw.tempLib]
+  simp [Font.rebuiltFrom, DictObj.deser, dictUpdate_nil _ hw.tempLib]
+
+
+/-! Info: independent generated properties -/
+
+theorem info_setProp_ne (k k' : String) (v : Val) (i : DictObj) (h : k ≠ k') :
+    dictGet (Info.setProp k v i).items k' = dictGet i.items k' := by
+  unfold Info.setProp
+  split
+  · rfl
+  · exact dictGet_set_ne _ _ _ _ h
+
+theorem info_setProp_self (k : String) (v : Val) (i : DictObj) (hv : v ≠ pyNone) :
+    dictGet (Info.setProp k v i).items k = v := by
+  unfold Info.setProp
+  split
+  · assumption
+  · simp [hv, dictGet_set_self]
+
+theorem info_applySetters (data : Dict) (hd : ∀ k v, AL.get? data k = some v → v ≠ pyNone)
+    (ks : List String) (t : DictObj) (k : String) :
+    dictGet (applySetters Info.setProp data ks t).items k =
+      if k ∈ ks then (match AL.get? data k with | some v => v | none => dictGet t.items k)
+      else dictGet t.items k := by
+  unfold applySetters
+  induction ks generalizing t with
+  | nil => simp
+  | cons k0 r ih =>
+    simp only [List.foldl_cons]
+    rw [ih]
+    by_cases e : k0 = k
+    · subst e
+      simp only [List.mem_cons, true_or, if_true]
+      cases hg : AL.get? data k0 with
+      | none => simp [setStep, hg]
+      | some v => simp [setStep, hg, info_setProp_self _ _ _ (hd _ _ hg)]
+    · have hstep : dictGet (setStep Info.setProp data t k0).items k = dictGet t.items k := by
+        unfold setStep
+        split
+        · exact info_setProp_ne _ _ _ _ e
+        · rfl
+      have e' : ¬ k = k0 := fun x => e x.symm
+      simp only [List.mem_cons, e', false_or, hstep]
+
+theorem info_ser_get (i : DictObj) (k : String) :
+    AL.get? (Info.ser none none i) k =
+      if k ∈ AL.keys infoProperties ∧ dictGet i.items k ≠ pyNone then AL.get? i.items k else none := by
+  unfold Info.ser
+  rw [get?_serializeWith]
+  simp [excluded_none, List.mem_filter]
+
+/-- every Info property reads the same after the round trip into a new Info -/
+theorem info_roundtrip (i t : DictObj) (hw : InfoWF i) (ht : ∀ k, dictGet t.items k = Info.default k)
+    (k : String) (hk : k ∈ AL.keys infoProperties) :
+    dictGet (Info.deser (Info.ser none none i) t).items k = dictGet i.items k := by
+  unfold Info.deser
+  rw [info_applySetters]
+  · simp only [hk, if_true]
+    rw [info_ser_get]
+    by_cases hn : dictGet i.items k = pyNone
+    · simp only [hk, hn, ne_eq, not_true_eq_false, and_false, if_false]
+      rw [ht k, hw.none_is_default k hk hn]
+    · simp only [hk, hn, ne_eq, not_false_eq_true, and_self, if_true]
+      unfold dictGet at hn ⊢
+      cases hg : AL.get? i.items k with
+      | none => simp [hg] at hn
+      | some v => simp
+  · intro k' v hv
+    rw [info_ser_get] at hv
+    split at hv
+    · rename_i hc
+      intro hvn
+      apply hc.2
+      simp [dictGet, hv, hvn]
+    · simp at hv
 
 
 end Serial
